@@ -246,6 +246,13 @@ func TestExhaustiveHeads(t *testing.T) {
 				}
 			} else {
 				inputs = [][]byte{h, append(append([]byte{}, h...), 0x00, 0x01, 0x02)}
+				// any number of bytes may follow a head (a reserved / indefinite head must stay an
+				// error however much input follows it; a valid head must consume only itself)
+				for _, extra := range []int{1, 2, 4, 8, 9, 15, 16, 17, 24, 32, 33, 64, 300} {
+					for _, fill := range []byte{0x00, 0x01, 0x61, 0xff} {
+						inputs = append(inputs, append(append([]byte{}, h...), bytes.Repeat([]byte{fill}, extra)...))
+					}
+				}
 			}
 			for _, in := range inputs {
 				for _, m := range methods {
